@@ -44,6 +44,7 @@ ASSUMPTIONS = ['kernel pty/pipe/socket ordering is trusted; the harness waits un
 REQUIRED = ['placements', 'popen_placements', 'text_mode_placements', 'traces_recorded', 'bulk_runs', 'inproc_placements', 'popen_runs', 'results_checked_le_size',
             'socket_timeout_checks', 'eof_checks', 'async_model_calls', 'async_model_idle_chunks']
 
+TEXT_FOR = {'utf-8': '\xe9\u20ac\u65e5', 'shift_jis': '\u8868\u65e5', 'gbk': '\u9555\u65e5', 'big5': '\u529f\u65e5'}
 PLANS = [['W', 'X'], ['W', 'W', 'X'], ['W', 'C', 'X'], ['W', 'W', 'C', 'X'], ['C', 'X'], ['X']]
 
 
@@ -279,7 +280,8 @@ def inproc_placement(case, acc):
             data = block(i, 3)
             if enc:
                 # text mode: multi-byte characters, so that a small read can hold only part of a character
-                data = ('%d\xe9\u20ac\u65e5;' % i).encode(enc) * 2
+                # (for the double-byte encodings: a character whose second byte lies in the ASCII range)
+                data = ('%d%s;' % (i, TEXT_FOR.get(enc, TEXT_FOR['utf-8']))).encode(enc) * 2
             written.append(data)
             if tr == 'fd':
                 os.write(wfd[0], data)
@@ -770,7 +772,8 @@ def plan(tier, seed):
                     cases.append({'kind': 'inproc', 'tr': tr, 'plan': pl, 'placement': list(p), 'size': size,
                                   'poll': bool(sum(p) % 2)})
                     if sum(p) % 3 == 0:
-                        cases.append({'kind': 'inproc', 'tr': tr, 'plan': pl, 'placement': list(p), 'enc': 'utf-8',
+                        cases.append({'kind': 'inproc', 'tr': tr, 'plan': pl, 'placement': list(p),
+                                      'enc': ['utf-8', 'shift_jis', 'utf-8', 'gbk', 'big5'][(sum(p) // 3 + len(pl)) % 5],
                                       'size': [1, 2, 3, 7][sum(p) % 4], 'poll': bool(sum(p) % 2)})
     # deterministic bulk cases: sizes between one kernel read (~4 KB on a pty) and the whole stream, so that one
     # read_nonblocking has to assemble its result from several pieces
